@@ -153,6 +153,12 @@ def run_div(case, ctx, g):
     if not (isinstance(x, torchtt.TT) and isinstance(y, torchtt.TT)):
         return
     ctx.count('operand-provenance:' + prov)
+    # magnitude of the numerator (the contract is relative to ||x||): a factor on ONE core, 1e-15 / 1e-16 / 1e12
+    xmag = [1.0, 1.0, 1.0, 1e-15, 1e12, 1e-16][(case['vseed'] // 5) % 6]
+    if xmag != 1.0 and not case.get('zero_num'):
+        jx = (case['vseed'] // 11) % d
+        x = torchtt.TT([c * xmag if k_ == jx else c for k_, c in enumerate(x.cores)])
+    ctx.count('numerator-magnitude:%g' % xmag)
     dy = dn.D(y)
     if not (float(dy.min()) >= 1.0 - 1e-9 and float(dy.max()) <= 1.0 + zr * zr + 1e-9):
         ctx.count('rejected:divisor-not-in-[1,2]')
@@ -166,6 +172,8 @@ def run_div(case, ctx, g):
         opts = ''
     elif form == 's/y':
         s = case['scalar']
+        if s != 0:
+            s = s * xmag          # 2e-15 / y, 1e12 / y ...
         num, tol = torch.full(N, float(s), dtype=torch.float64), 1e-12
         q = ctx.lib('scalar/TT', lambda b: s / b, y)
         opts = 's=%r' % s
